@@ -44,7 +44,7 @@ ALL = ['raw', 'qcow2', 'vhd', 'vhdx', 'vmdk', 'vdi', 'qed', 'iso', 'gpt', 'luks'
 GENERIC_POINTS = [4, 6, 32, 64, 108, 512, 592, 1536, 32768, 34816, 196608,
                   196624, 262144]
 CAPS_QUICK = {'own': 52, 'own-vmdk': 34, 'vmdk-foreign': 32, 'foreign': 24,
-              'wrapper': 16, 'wrapper-short': 7}
+              'wrapper': 16, 'wrapper-short': 5}
 CAPS_THOROUGH = {'own': 80, 'own-vmdk': 64, 'vmdk-foreign': 48, 'foreign': 32,
                  'wrapper': 28, 'wrapper-short': 14}
 WRAP_BASE = {3, 4, 5, 63, 64, 65, 511, 512, 513, 591, 592, 593}
